@@ -729,7 +729,12 @@ pub fn session(lines: &[String], c: Option<&Ctx>, emit: &mut dyn FnMut(String)) 
                     let me = fn_of(s.frames[cur_k].0);
                     let outer_same = s.frames.iter().skip(cur_k + 1).filter(|(pc, _)| fn_of(*pc) == me).count() as u64;
                     let past_prologue = me.and_then(|off| die_by_off.get(&off)).and_then(|f| c.rows.iter().filter(|r| r.prologue_end && in_user(&f.ranges, r.addr)).map(|r| r.addr).min()).is_some_and(|pe| loc_pc >= pe);
-                    if !c.opt && let (Some(ln), Some(x), true) = (ln, num, past_prologue) && let Some(fi) = c.src.fn_at(ln) {
+                    // rustc's -O0 locations are `DW_OP_fbreg` off a frame base `DW_OP_reg7 RSP` and are not adjusted for the epilogue:
+                    // after the `add rsp, N` of the epilogue (pc past the first instruction of the epilogue_begin row) they point
+                    // elsewhere.  That is the compiler's description, not the debugger's reading of it: no verdict on values there.
+                    let sp_restored = cur_k == 0 && dwline::row_for_pc(&c.rows, g).is_some_and(|r| r.epilogue_begin && g > r.addr);
+                    if sp_restored { emit("!count oracle.no-verdict.epilogue-after-sp-restore".to_string()); }
+                    if !c.opt && !sp_restored && let (Some(ln), Some(x), true) = (ln, num, past_prologue) && let Some(fi) = c.src.fn_at(ln) {
                         let f = &c.src.fns[fi];
                         // per-activation argument values, from the calls written in `main` and the recursion scheme of the
                         // debuggees (`rec*(n, tag)` calls itself with (n - 1, tag + 1); `multi(n, w)` with n - 1)
